@@ -364,9 +364,7 @@ func runHistory(p *SPlan, noUp bool, o *sim.Outcome, sigParts *[]string) []obsLi
 			}
 			continue
 		case "uplock":
-			if m.Locked {
-				continue // the shim holds the lock: do not fight over the passphrase
-			}
+			// also while the shim holds the lock: the underlying agent has a socket of its own
 			s.ref.DirectLock(st.N == 1, []byte("behind"))
 			m.UpLocked, m.UpPass = st.N == 1, "behind"
 			if st.N == 1 {
